@@ -21,7 +21,7 @@ from . import common
 
 ID = 'C06'
 LEVEL = 'exploration'
-RUNS = {'quick': 14000, 'thorough': 200000}
+RUNS = {'quick': 70000, 'thorough': 400000}
 SIM_TIME_UNIT = 'samples / dense time units'
 RULE = ('seeded generation of (specification, i/o assignment in {input, output, undeclared}^K, semantics, monitor kind, data, '
         'stepping/chunking); non-trivial = the expected result differs from the standard robustness somewhere (an insensitive '
@@ -108,6 +108,10 @@ def gen(rng, tier):
     structs = dict((v, rng.choice(msgs.PATHS)) for v in vars_ if rng.random() < 0.5) if rng.random() < 0.15 else {}
     sc = {'kind': kind, 'mode': mode, 'vars': vars_, 'ast': ast, 'io': io, 'sem': sem, 'pastify': bool(pastify), 'modular': modular,
           'structs': structs}
+    declared = [v for v in vars_ if io[v]]
+    if declared and rng.random() < 0.12:
+        flip = [v for v in declared if rng.random() < 0.6] or [declared[0]]
+        sc['prior_io'] = dict((v, ({'input': 'output', 'output': 'input'}[io[v]] if v in flip else io[v])) for v in declared)
     if dense:
         sc['signals'] = dict((v, world.gen_dense_signal(rng, rng.randint(1, 6), start_q=0, max_gap_q=4)[0]) for v in vars_)
         sc['nbatches'] = rng.randint(1, 3)
@@ -183,6 +187,9 @@ def desc_of(sc, with_io=True, sem=None):
             d['spec'] = top
     if with_io:
         d['io'] = dict((v, t) for v, t in sc['io'].items() if t)
+        if sc.get('prior_io') and not d.get('subspecs'):
+            # the object was parsed once under other input/output declarations; set_var_io_type(), then parse() again
+            d['prior'] = {'spec': d['spec'], 'io': dict((v, t) for v, t in sc['prior_io'].items() if v in d['io'])}
     return d
 
 
@@ -256,6 +263,8 @@ def run(sc):
         r.probes['modular_specification'] += 1
     if sc.get('structs'):
         r.probes['message_typed_variable'] += 1
+    if desc_of(sc).get('prior'):
+        r.faults['io_declarations_changed_and_reparsed'] += 1
     if dense:
         f = D.from_samples(out) if isinstance(out, list) else None
         s0 = max(sc['signals'][v][0][0] for v in used)
